@@ -15,7 +15,12 @@ HOSTILE_TZIDS = ["America", "../../etc/passwd", "/etc/passwd", "a" * 300, "", "E
                  "Europe/Berlin/", "europe/berlin", "Zulu", "America/Argentina", "x" * 5000, "퟿",
                  "Asia/Kolkata ", " ", "~", "right/UTC", "tzdata.zi", "zone.tab", "Factory", "SystemV/AST4",
                  # many path segments: one package import each when zoneinfo looks into the tzdata package
-                 "/".join(["a"] * 260), ".".join(["b"] * 400), "Europe/" * 300 + "Berlin", "x/" * 2000]
+                 "/".join(["a"] * 260), ".".join(["b"] * 400), "Europe/" * 300 + "Berlin", "x/" * 2000,
+                 # globally unique ids as calendar programs write them, complete and cut short
+                 "/mozilla.org/20050126_1/Europe/Berlin", "/mozilla.org/20050126_1", "/mozilla.org/",
+                 "/freeassociation.sourceforge.net/Tzfile/Europe/Berlin", "/freeassociation.sourceforge.net/",
+                 "/softwarestudio.org/Olson_20011030_5/", "/citadel.org/20190914_1/Europe", "Citadel.org", "/inverse.ca/",
+                 "/", "//", "/a/b"]
 HOSTILE_OFFSETS = ["+2500", "-0000", "+ab12", "+010", "+01000000", "", "+9999", "-2359", "+235959", "0100", "+24"]
 HOSTILE_DATES = ["20230105T101500Z/202301", "120000/133000", "202301/20230105T101500Z", "20230105T101500Z/1230000",
                  "20200101/20200102", "20200101/P1D", "20200101/20200102T000000Z", "20200101T000000Z/20200102",
